@@ -42,7 +42,8 @@ PROFILES = {
         design=[("MuxPool", "mp_cur2.cfg", True), ("MuxPool", "mp_fix2.cfg", True), ("MuxPool", "mp_fix1.cfg", True),
                 ("MuxPoolTick", "mp_tick2.cfg", True),
                 ("MuxPool", "mp_cls_sesserr.cfg", False), ("MuxPool", "mp_cls_ret.cfg", False), ("MuxPool", "mp_cls_add.cfg", False)],
-        bfs=[("bfs_n1.cfg", 1, None)], gen=[("sim_n2.cfg", 2, 150), ("sim_n3.cfg", 3, 150)], limit=2500),
+        bfs=[("bfs_n1.cfg", 1, None)], gen=[("sim_n2.cfg", 2, 150), ("sim_n3.cfg", 3, 150)], limit=2500,
+        loop=[("loop_n1.cfg", 1, 8), ("loop_n2.cfg", 2, 20), ("loop_n3.cfg", 3, 20)]),
     "thorough": dict(
         design=[("MuxPool", "mp_cur2.cfg", True), ("MuxPool", "mp_cur3.cfg", True), ("MuxPool", "mp_fix1.cfg", True),
                 ("MuxPool", "mp_fix2.cfg", True), ("MuxPool", "mp_fix3.cfg", True), ("MuxPool", "mp_fix3_t.cfg", True),
@@ -50,7 +51,8 @@ PROFILES = {
                 ("MuxPool", "mp_pinned.cfg", False),
                 ("MuxPool", "mp_cls_sesserr.cfg", False), ("MuxPool", "mp_cls_ret.cfg", False), ("MuxPool", "mp_cls_add.cfg", False)],
         bfs=[("bfs_n1.cfg", 1, None), ("bfs_n2.cfg", 2, None)],
-        gen=[("sim_n1.cfg", 1, 300), ("sim_n2.cfg", 2, 1500), ("sim_n3.cfg", 3, 1500)], limit=40000),
+        gen=[("sim_n1.cfg", 1, 300), ("sim_n2.cfg", 2, 1500), ("sim_n3.cfg", 3, 1500)], limit=40000,
+        loop=[("loop_n1.cfg", 1, None), ("loop_n2.cfg", 2, None), ("loop_n3.cfg", 3, 400)]),
 }
 OBS_RE = re.compile(r'<<(\d+), "(\w+)", (-?\d+), (-?\d+)>>')
 CAUSES = {("SessErr", True): "conn-open-after-sessionFn-error",
@@ -60,12 +62,8 @@ CAUSES = {("SessErr", True): "conn-open-after-sessionFn-error",
 
 
 def load_extra_findings(c):
-    p = os.path.join(ROOT, "proposed", "C10-known.json")
-    if os.path.exists(p):
-        have = {f.get("id") for f in c.findings}
-        for f in json.load(open(p)):
-            if f.get("id") not in have:
-                c.findings.append(f)
+    """known findings come from /verif/KNOWN_FINDINGS.json only (vlib)"""
+    return
 
 
 def leak_cause(run, conn):
@@ -158,6 +156,17 @@ def run(c, a):
             raise Broken("no behaviours generated")
         if len(scheds) > prof["limit"]:
             scheds = rnd.sample(scheds, prof["limit"])
+        # two REAL pools (establisher <-> receiver) over loopback: session kills and cancel only; first in the list so
+        # that the (slower) loopback runs are spread evenly over the shards
+        loops = []
+        for cfg, n, cap in prof["loop"]:
+            got = collect(cfg, n, workers=2)
+            exhaustive.append("%s: %d behaviours" % (cfg[:-4], len(got)))
+            if cap and len(got) > cap:
+                got = rnd.sample(got, cap)
+                exhaustive[-1] += " (%d sampled)" % cap
+            loops += [{"n": n, "cmds": x, "loop": True} for x in got]
+        scheds = loops + scheds
         for i, s in enumerate(scheds):
             s["id"] = "s%d" % i
             s["role"] = "client" if i % 2 == 0 else "server"
@@ -166,6 +175,7 @@ def run(c, a):
     # ---- 3. real code
     binpath = c.go_test_build("transport/mux", HARNESS, name="muxpool")
     nshard = min(NCPU, max(1, len(scheds) // 20))
+    nloop = sum(1 for s in scheds if s.get("loop"))
     files = []
     for i in range(nshard):
         p = os.path.join(c.scratch, "muxpool-in-%d.ndjson" % i)
@@ -198,6 +208,10 @@ def run(c, a):
         run_of.append(len(runs) - 1)
         runs[-1].append(e)
     by_id = {s["id"]: s for s in scheds}
+    for s in scheds:
+        if s.get("loop"):       # a loopback schedule is recorded as two runs, one per pool
+            by_id[s["id"] + "/establisher"] = s
+            by_id[s["id"] + "/receiver"] = s
     bad_runs = set()
     causes = {}
     reported = set()
@@ -227,8 +241,8 @@ def run(c, a):
     # provider) is a verdict; unrealised schedules WITHOUT any confirmed violation mean the generator and the code disagree
     if unreal > 0.2 * max(1, len(runs)) and not c.violations:
         raise Broken("%d of %d schedules could not be realised" % (unreal, len(runs)))
-    if len(runs) != len(scheds):
-        raise Broken("%d schedules in, %d runs out" % (len(scheds), len(runs)))
+    if len(runs) != len(scheds) + nloop:
+        raise Broken("%d schedules (%d loopback) in, %d runs out" % (len(scheds), nloop, len(runs)))
     acts, locs, healed = {}, {}, 0
     for r in runs:
         for e in r:
@@ -242,15 +256,19 @@ def run(c, a):
     nontrivial = len({json.dumps(s["cmds"], sort_keys=True) + str(s["n"]) for s in scheds
                       if any(x["a"] in ("SessErr", "PingFail", "PeerClose", "LocalClose", "DialFail") for x in s["cmds"])})
     c.coverage.update({
-        "schedules_replayed": len(runs), "unrealised": unreal, "events_validated": len(lines),
+        "schedules_replayed": len(scheds), "loopback_schedules_both_real_roles": nloop, "recorded_runs": len(runs), "unrealised": unreal, "events_validated": len(lines),
         "runs_with_violation": len(bad_runs), "violation_causes": causes, "commands_by_kind": acts,
         "snapshots_by_provider_location": locs, "heal_checks": healed,
-        "evaluations": len(runs), "distinct_nontrivial": nontrivial,
+        "evaluations": len(scheds), "distinct_nontrivial": nontrivial,
         "rule": "distinct environment schedules (dial ok/fail, sessionFn ok/error, ping ok/timeout/eof/other, peer close, local "
                 "close, cancel at any location, heal) generated by TLC from MuxPoolSim for pools of 1..3; non-trivial = contains "
-                "at least one fault (failed dial, sessionFn error, failed ping or a session kill)",
+                "at least one fault (failed dial, sessionFn error, failed ping or a session kill); loopback schedules (two real pools, "
+                "kills and cancel only) are counted in the same way",
     })
-    samples = [{"schedule": scheds[0], "end": [e for e in runs[0] if e["ev"] == "End"]}]
-    if len(scheds) > 1:
-        samples.append({"schedule": scheds[-1], "end": [e for e in runs[-1] if e["ev"] == "End"]})
-    return c.finish(samples, traces_validated=len(runs) - len(bad_runs))
+    run_by_id = {r[0].get("id"): r for r in runs}
+    samples = []
+    for s in ([scheds[0]] if nloop else []) + scheds[nloop:nloop + 2]:
+        rid = s["id"] + "/establisher" if s.get("loop") else s["id"]
+        samples.append({"schedule": s, "end": [e for e in run_by_id.get(rid, []) if e["ev"] in ("End", "Healed")][-2:]})
+    bad_scheds = {runs[ri][0].get("id", "").split("/")[0] for ri in bad_runs}
+    return c.finish(samples, traces_validated=len(scheds) - len(bad_scheds))
